@@ -91,23 +91,19 @@ theorem release_and_prepare_limit {g : Graph} {s : State} (h : KeepQ g s) (hi : 
 
 /-- every job launch of a run comes out of the release step of a main loop: any other operation launches nothing -/
 theorem launch_only_in_main_loop {g : Graph} {s : State} (h : KeepQ g s) (op : Op) (hne : op ≠ .loop) :
-    (step g s op).launched = [] := by
-  have h0 : Keep (g, []) (clearOp s) := keep_clearOp s (keep_of_keepQ h)
-  unfold step
-  cases op with
-  | loop => exact absurd rfl hne
-  | subres p n ok sn => exact keep_launched (keep_processMessage g _ _ _ _ _ _ _ h0)
-  | msg p n sn text => rfl
-  | hold ids => exact keep_launched (keep_holdTasks _ _ h0)
-  | release ids => exact keep_launched (keep_releaseTasks _ _ h0)
-  | setHoldPoint p => exact keep_launched (keep_setHoldPoint _ _ h0)
-  | releaseHoldPoint => exact keep_launched (keep_releaseHoldPoint _ h0)
-  | stop mode => rfl
-  | stopPoint p => exact keep_launched (keep_setStopPoint _ _ h0)
-  | stopTask p n => rfl
-  | pause => rfl
-  | resume => rfl
-  | restart => exact keep_launched (keep_restart g _ h0.1)
+    (step g s op).launched = [] :=
+  launched_step_of_ne_loop h op hne
+
+/-- **queue order over any operation** (run level, any state satisfying the run invariants): queue by queue the
+name, limit and members are unchanged, and the deque afterwards is `sub ++ app` where `sub` is a sublist of the
+deque before - the tasks that are still queued keep the order in which they were queued - and `app` are the tasks
+queued by the operation, behind all of them (`QStep`, `Tail`).  Together with `release_fifo` (a release takes from
+the head, skipping held tasks, which stay where they are): tasks leave a queue in the order they entered it. -/
+theorem queue_order_step {g : Graph} {s : State} (h : KeepQ g s) (op : Op) : QStep s.qs (step g s op).qs :=
+  qstep_step s op h
+
+/-- the same for the release step alone -/
+theorem queue_order_release (s : State) : QStep s.qs (releaseAndSubmit s).qs := qstep_releaseAndSubmit s
 
 /-! ### `Inv_queue`: the limits along runs -/
 
